@@ -144,6 +144,14 @@ func (fv *FnV) moduleCall(st *State, callee *ssa.Function, args []ssa.Value, clo
 		argTerms = append(argTerms, sv)
 	}
 	ms := fv.g.effectiveMods(callee)
+	if len(fv.lockSites) > 0 && fv.g.subtreeLocks(callee) {
+		var free []string
+		for _, m := range fv.lockSites {
+			free = append(free, eq(sel(fv.heapGet(st, "G|held"), m), "0"))
+		}
+		fv.emit(st, "L", "no-relock:"+shortCallee(cname)+"@"+fv.siteText(pos, "call"), fv.lockProps(), and(free...),
+			"no mutex of this function is held across a call that may lock (self-deadlock)", pos)
+	}
 	if fv.k != nil {
 		for _, cl := range fv.k.CallAsserts[shortCallee(cname)] {
 			env := fv.contractEnv(st, fv.entry, nil)
@@ -155,6 +163,20 @@ func (fv *FnV) moduleCall(st *State, callee *ssa.Function, args []ssa.Value, clo
 				return nil, fmt.Errorf("%s: at-call %s assert %s: %v", fv.name, cname, cl.Label, err)
 			}
 			fv.emit(st, "A", shortCallee(cname)+"."+cl.Label, cl.Props, t, "holds just before the call of "+cname+": "+cl.Text, pos)
+		}
+	}
+	if cp := strings.SplitN(cname, ".", 2)[0]; fv.g.nonnilParams[cp] && !fv.g.apiRoots[cname] {
+		for i, p := range callee.Params {
+			if i >= len(argTerms) {
+				break
+			}
+			for _, f := range fv.paramFacts(st, st, p.Name(), p.Type(), fv.term(argTerms[i]), k) {
+				if f.term == "true" {
+					continue
+				}
+				fv.emit(st, "P", shortCallee(cname)+"."+f.label, fv.safetyProps(), f.term, "argument of "+cname+": "+f.text, pos).Contained = fv.hasRecover
+				fv.assume(st, f.term)
+			}
 		}
 	}
 	if k != nil {
@@ -226,7 +248,9 @@ func (fv *FnV) moduleCall(st *State, callee *ssa.Function, args []ssa.Value, clo
 			fv.assume(st, t)
 		}
 	}
-	fv.recordErrCall(st, cname, sig, res, pos)
+	if k == nil || !k.ErrorIsValue {
+		fv.recordErrCall(st, cname, sig, res, pos)
+	}
 	return res, nil
 }
 
